@@ -79,11 +79,12 @@ type gctx struct {
 	usedTypeNames map[string]bool
 	namesByFile   map[string]map[string]bool
 	allTypeNames  []string
-	sigTypedefs   []*Def   // typedefs function signatures should prefer (TypedefArgs)
-	structOnlyOK  bool     // the field list under construction belongs to a struct or union
-	hden          int      // see hostileDen
-	negIDsOK      bool     // negative field ids may be drawn (inside genStruct)
-	clusterName   string   // a type name every file of the program defines (name clusters)
+	sigTypedefs   []*Def // typedefs function signatures should prefer (TypedefArgs)
+	structOnlyOK  bool   // the field list under construction belongs to a struct or union
+	hden          int    // see hostileDen
+	negIDsOK      bool   // negative field ids may be drawn (inside genStruct)
+	clusterName   string // a type name every file of the program defines (name clusters)
+	clusterConsts []clusterConst
 	enumItemNames []string // Go constant names of generated enum items (hostile collisions)
 	sameBaseRun   bool     // the program has a run of same-named files (SameBaseRuns)
 }
@@ -479,6 +480,8 @@ func (g *gctx) genFile(f *File) {
 	f.Defs = perm
 }
 
+type clusterConst struct{ file, name, shape string }
+
 // genCluster defines the program-wide shared name in this file (as a struct, an enum or a
 // typedef) and a struct naming, inside containers, every definition of that name this file can
 // see: its own and those of the files it includes. The generated package then has to tell
@@ -499,7 +502,13 @@ func (g *gctx) genCluster(f *File, add func(*Def)) {
 		own.Kind = DTypedef
 		own.Target = &Type{K: TI64}
 	default:
-		own.Fields = []*Field{{ID: 1, Name: "label", Type: &Type{K: TString}, Req: "optional"}}
+		own.Fields = []*Field{{ID: 1, Name: "label", Type: &Type{K: TString}, Req: "optional"},
+			{ID: 2, Name: "level", Type: &Type{K: TI32}, Req: "optional", Default: &Const{K: "int", I: int64(g.intn(0, 9, "cluster_level"))}}}
+		// files are generated from the last to the first and include only later ones: the struct of
+		// an including file has every field of the structs of the files it can include, and more
+		for j := len(g.p.Files) - 1; j >= 0 && g.p.Files[j] != f; j-- {
+			own.Fields = append(own.Fields, &Field{ID: 10 + j, Name: fmt.Sprintf("bonus%d", j), Type: &Type{K: TI32}, Req: "optional", Default: &Const{K: "int", I: int64(j)}})
+		}
 	}
 	if g.namesByFile == nil {
 		g.namesByFile = map[string]map[string]bool{}
@@ -509,6 +518,38 @@ func (g *gctx) genCluster(f *File, add func(*Def)) {
 	}
 	g.namesByFile[f.Path][own.Name] = true
 	add(own)
+	// a constant of this file's type of the shared name. Where an included file has a constant
+	// of ITS type of that name and the two types have the same shape, this one takes its value
+	// from there: the value is cast to this file's type (its defaults, its width), not kept as
+	// a value of the other file's type of the same name.
+	if g.o.Consts && (own.Kind == DStruct || own.Kind == DTypedef) {
+		shape := own.Kind
+		if own.Kind == DTypedef {
+			shape += ":" + own.Target.K
+		}
+		var val *Const
+		for _, cc := range g.clusterConsts {
+			if cc.shape == shape && includes(f, cc.file) && g.chance(2, 3, "cluster_constref") {
+				val = &Const{K: "ref", Ref: &ConstRef{Target: Ref{File: cc.file, Name: cc.name}}}
+				break
+			}
+		}
+		if val == nil {
+			switch shape {
+			case DStruct:
+				val = &Const{K: "map", Pairs: [][2]*Const{{{K: "string", S: "label"}, {K: "string", S: "x"}}}}
+			case DTypedef + ":" + TList:
+				val = &Const{K: "list", Items: []*Const{{K: "string", S: "a"}, {K: "string", S: "b"}}}
+			default:
+				val = &Const{K: "int", I: int64(g.intn(0, 1000, "cluster_constv"))}
+			}
+		}
+		g.n++
+		cd := &Def{Kind: DConst, Name: fmt.Sprintf("SHARED_VALUE_%d", g.n), Type: &Type{K: TRef, Ref: &Ref{File: f.Path, Name: own.Name}}, Value: val}
+		add(cd)
+		g.consts = append(g.consts, cd)
+		g.clusterConsts = append(g.clusterConsts, clusterConst{file: f.Path, name: cd.Name, shape: shape})
+	}
 	user := &Def{Kind: DStruct, Name: g.newTypeName()}
 	id := 1
 	for _, d := range g.pool {
@@ -800,6 +841,23 @@ func (g *gctx) genStruct() *Def {
 			g.fieldAnnots(f, usedNames)
 		}
 		d.Fields = append(d.Fields, f)
+	}
+	// a field called like an accessor that is NOT generated: required fields of primitive type
+	// have no IsSet<Field> method, so a sibling is_set_<field> is an ordinary, legal field
+	if kind != DUnion && !g.o.Hostile && g.chance(1, 6, "issetsibling") {
+		for _, x := range d.Fields {
+			if x.Req == "required" && x.Default == nil && x.Annots == nil && x.Type != nil {
+				switch x.Type.K {
+				case TBool, TI8, TI16, TI32, TI64, TDouble, TString:
+					name := "is_set_" + x.Name
+					if !usedNames["name:"+name] && !usedNames[GoName(name)] {
+						usedNames["name:"+name], usedNames[GoName(name)] = true, true
+						d.Fields = append(d.Fields, &Field{ID: g.genFieldID(usedIDs), Name: name, Type: &Type{K: TBool}, Req: "optional"})
+					}
+				}
+				break
+			}
+		}
 	}
 	d.Annots = g.foreignAnnots(d.Annots, 4)
 	return d
